@@ -1335,3 +1335,146 @@ def r2_3(rep):
         fs = {x["f"]: atom(ln, x["e"], lenv) for x in lit[0]["fs"]}
         rep.check(fs.get("size") == "p0" and fs.get("align") == "p1" and fs.get("packed") == "False", "Layout::new:fields",
                   "Layout::new(size, align) stores size, align, packed=false: %s" % fs, ln.loc(lit[0]))
+
+
+# ---------------------------------------------------------------------------------------------------------------------
+# R2.4 — bookkeeping of StructLayoutTracker (added by the main session)
+SLT = "codegen::struct_layout::StructLayoutTracker"
+
+
+def _slt_methods(prog):
+    out = {}
+    for p, b in prog.bodies.items():
+        if (b.fact.get("impl_self") or "").startswith(SLT) and b.fact.get("impl_trait") is None:
+            out[p.split("::")[-1]] = b
+    return out
+
+
+def _self_field(n, name=None):
+    n = strip(n)
+    if n.get("k") == "Field" and n.get("adt") == SLT and strip(n["base"]).get("name") == "self":
+        return n["f"] if name is None else n["f"] == name
+    return None if name is None else False
+
+
+def _assigns(b, field):
+    return [n for n in b.walk() if n["k"] in ("Assign", "AssignOp") and _self_field(n["l"], field)]
+
+
+@RULES.rule("R2.4", "StructLayoutTracker accounts every member once: offset grows by its size, layout and max alignment are recorded", floor=30)
+def r2_4(rep):
+    """The tracker's running `latest_offset` decides every explicit padding field and the tail padding; the recorded
+    `latest_field_layout` / `max_field_align` decide alignment of the next member and whether `repr(align)` is needed.
+    Breaks: dropping `max_field_align = max(..)` from saw_base makes a struct whose only over-aligned member is a base
+    lose/gain `#[repr(align)]`; `latest_offset += layout.size` -> `= layout.size` misplaces every later padding."""
+    prog = rep.prog
+    ms = _slt_methods(prog)
+    rep.need(ms, "impl StructLayoutTracker")
+    pb = rep.need(ms.get("padding_bytes"), "StructLayoutTracker::padding_bytes")
+    env = param_env(pb)
+    t = pb.root.get("tail")
+    f = dict(lin(pb, t, env)) if t is not None else {}
+    al = [k for k, v in f.items() if v == 1 and "align_to" in k]
+    lo = [k for k, v in f.items() if v == -1 and "latest_offset" in k]
+    rep.check(len(f) == 2 and len(al) == 1 and len(lo) == 1 and "latest_offset" in al[0] and "align" in al[0], "padding_bytes:formula",
+              "padding_bytes(l) = align_to(latest_offset, l.align) - latest_offset (found %s)" % fmt_lin(frozenset(f.items()))[:140], pb.loc(pb.root))
+
+    # which layout each accounting method records
+    acct = {"saw_vtable": None, "saw_base": None, "saw_bitfield_unit": None, "saw_field_with_layout": None}
+    for name in acct:
+        b = ms.get(name)
+        if not rep.check(b is not None, "accounting-method:" + name, "StructLayoutTracker::%s exists" % name):
+            continue
+        lf = _assigns(b, "latest_field_layout")
+        ok = len(lf) == 1 and lf[0]["k"] == "Assign" and strip(lf[0]["r"]).get("k") == "Call" and (strip(lf[0]["r"]).get("ctor") or "").endswith("Some")
+        if not rep.check(ok, name + ":records-layout", "records exactly one `latest_field_layout = Some(<layout of the member>)`", b.loc(b.root)):
+            continue
+        L = strip(lf[0]["r"])["args"][0]
+        Lc = b.canon(L, 6)
+        extra = [a for a, p_, nd in qq_atoms(b, lf[0]) if not a.startswith("let ")]
+        rep.check(not extra, name + ":records-layout-always", "the member's layout is recorded on every path (found condition %s)" % extra[:1], b.loc(lf[0]))
+        # max_field_align
+        ma = _assigns(b, "max_field_align")
+        okm = False
+        for n in ma:
+            r = b.canon(n["r"], 6)
+            if name == "saw_vtable":
+                okm = okm or ("target_pointer_size" in r)
+            else:
+                okm = okm or (("std::cmp::max(" in r or "Ord::max(" in r) and "max_field_align" in r and (Lc in r) and "Layout::align" in r)
+        rep.check(okm, name + ":max-align", "max_field_align takes the member's alignment into account (`max(max_field_align, <layout>.align)`)", b.loc(b.root))
+        # latest_offset grows by the member's size
+        lo = [n for n in _assigns(b, "latest_offset")]
+        grow = False
+        for n in lo:
+            if n["k"] == "AssignOp" and n["op"] == "+=":
+                fr = dict(lin(b, n["r"], {}))
+                sizes = [k for k, v in fr.items() if v == 1 and ("Layout::size" in k or ".size" in k or "target_pointer_size" in k)]
+                others = [k for k, v in fr.items() if k not in sizes]
+                if sizes and all("padding_bytes" in k for k in others) and (name == "saw_vtable" or Lc.split("~")[0][:40] in sizes[0] or "size" in sizes[0]):
+                    grow = True
+        if name == "saw_field_with_layout":
+            # struct: += size ; union: max(latest_offset, size)
+            unions = [n for n in lo if n["k"] == "Assign" and "max(" in b.canon(n["r"], 6) and "latest_offset" in b.canon(n["r"], 6) and "Layout::size" in b.canon(n["r"], 6)]
+            rep.check(bool(unions) and all(qq_has(b, n, "CompInfo::is_union", True) for n in unions), name + ":union-offset",
+                      "for unions the offset is max(latest_offset, size)", b.loc(b.root))
+            grow_nodes = [n for n in lo if n["k"] == "AssignOp" and n["op"] == "+=" and "Layout::size" in b.canon(n["r"], 6)]
+            rep.check(bool(grow_nodes) and all(qq_has(b, n, "CompInfo::is_union", False) for n in grow_nodes), name + ":struct-offset",
+                      "for structs the offset grows by the field's size", b.loc(b.root))
+        else:
+            rep.check(grow, name + ":offset-grows-by-size", "latest_offset += (padding +) size of the member", b.loc(b.root))
+    # saw_field_with_layout: padding is added to the offset before the field, and is what the padding blob is made of
+    b = ms.get("saw_field_with_layout")
+    if b is not None:
+        adds = [n for n in _assigns(b, "latest_offset") if n["k"] == "AssignOp" and n["op"] == "+=" and strip(n["r"]).get("name") == "padding_bytes"]
+        rep.check(len(adds) == 1 and not b.guards(adds[0]), "field:padding-added-once", "`latest_offset += padding_bytes` happens once, unconditionally", b.loc(b.root))
+        news = [c for c in b.calls(lambda n: n["k"] == "Call" and (n.get("callee") or "").endswith("Layout::new"))]
+        rep.check(bool(news) and all(strip(c["args"][0]).get("name") == "padding_bytes" for c in news), "field:padding-blob-size",
+                  "the explicit padding field is exactly padding_bytes long", b.loc(b.root))
+        # explicit clang offset: padding = offset/8 - latest_offset, only when the field lies beyond the current offset
+        pads = [n for n in b.walk() if n["k"] == "Let" and n["pat"].get("name") == "padding_bytes"]
+        if rep.check(len(pads) == 1, "field:padding-def", "one definition of padding_bytes", b.loc(b.root)):
+            m = strip(pads[0]["init"])
+            okx = False
+            if m.get("k") == "Match":
+                for a in m["arms"]:
+                    if "guard" in a:
+                        g = strip(a["guard"])
+                        body = dict(lin(b, a["body"], {}))
+                        pos = [k for k, v in body.items() if v == 1]
+                        neg = [k for k, v in body.items() if v == -1]
+                        okx = g.get("k") == "Binary" and g["op"] == ">" and "/ lit:8" in b.canon(g["l"], 4).replace("'", "") or okx
+                        okx = okx and len(pos) == 1 and len(neg) == 1 and "/ 8" in pos[0] and "latest_offset" in neg[0]
+            rep.check(okx, "field:explicit-offset-padding", "with a known field offset the padding is offset/8 - latest_offset, used only when offset/8 > latest_offset",
+                      b.loc(pads[0]))
+    # pad_struct / add_tail_padding
+    for name, szname in (("pad_struct", "layout"), ("add_tail_padding", "comp_layout")):
+        b = ms.get(name)
+        if not rep.check(b is not None, "method:" + name, "StructLayoutTracker::%s exists" % name):
+            continue
+        news = [c for c in b.calls(lambda x: x["k"] == "Call" and ((x.get("callee") or "").endswith("Layout::new") or (x.get("callee") or "").endswith("Layout::for_size")))]
+        rep.check(bool(news), name + ":blob-sites", "%d padding blob constructions" % len(news), b.loc(b.root))
+        for c in news:
+            arg = c["args"][0] if (c.get("callee") or "").endswith("Layout::new") else c["args"][1]
+            fr = dict(lin(b, arg, {}))
+            pos = [k for k, v in fr.items() if v == 1]
+            neg = [k for k, v in fr.items() if v == -1]
+            okf = len(fr) == 2 and len(pos) == 1 and len(neg) == 1 and "size" in pos[0] and szname in pos[0] and "latest_offset" in neg[0]
+            rep.check(okf, name + ":formula", "the trailing padding blob is %s.size - latest_offset bytes long (found %s)" %
+                      (szname, fmt_lin(frozenset(fr.items()))[:120]), b.loc(c))
+    b = ms.get("pad_struct")
+    if b is not None:
+        rets = [n for n in b.walk() if n["k"] == "Ret" and "None" in b.canon(n.get("e", {}), 2)]
+        conds = " ".join(a for n in rets for a, p, _ in qq_atoms(b, n))
+        rep.check("<" in conds and "latest_offset" in conds and "== lit:0" in conds, "pad_struct:early-exits",
+                  "no padding when the struct is already as large as (or larger than) its layout", b.loc(b.root))
+
+
+def qq_atoms(b, n):
+    import qq
+    return qq.guard_atoms(b, n)
+
+
+def qq_has(b, n, substr, pol):
+    import qq
+    return qq.has_atom(qq.guard_atoms(b, n), substr, pol)
